@@ -17,7 +17,9 @@ pub struct QueryInfo {
 pub const QM_ITER: usize = 0;
 pub const QM_ITER_BORROW: usize = 1;
 pub const QM_ITER_DESTROY: usize = 2;
-pub const QUERY_MODES: [&str; 3] = ["ecs_iter!", "ecs_iter_borrow!", "ecs_iter_destroy!"];
+/// ecs_iter_destroy! with a closure that returns plain `EcsStep` (converted by `From<EcsStep>`)
+pub const QM_ITER_DESTROY_STEP: usize = 3;
+pub const QUERY_MODES: [&str; 4] = ["ecs_iter!", "ecs_iter_borrow!", "ecs_iter_destroy!", "ecs_iter_destroy!(EcsStep)"];
 
 /// One step of a world-level event iterator: size_hint before the call, then the item.
 pub type HintedItems = Vec<((usize, Option<usize>), Option<EntityAny>)>;
@@ -81,6 +83,9 @@ macro_rules! run3 {
             }),
             QM_ITER_DESTROY => ecs_iter_destroy!($w, $($params)* {
                 query_body!($mode, $f, $e, $d, [ $( $c ),* ]).to_destroy()
+            }),
+            QM_ITER_DESTROY_STEP => ecs_iter_destroy!($w, $($params)* {
+                query_body!($mode, $f, $e, $d, [ $( $c ),* ]).to_step()
             }),
             _ => unreachable!(),
         }
